@@ -18,7 +18,10 @@
 (*             whether the store sent precomputed hashes (irrelevant for   *)
 (*             the identity of the chunk).                                 *)
 (*  frame      [ls, chunks]: one Series message of a store.  A series may  *)
-(*             span several consecutive frames of one store.               *)
+(*             span several consecutive frames of one store.  A frame with *)
+(*             a field k = "h" / "w" is a hints / warning message (ls and  *)
+(*             chunks empty); k = "s" or no k is a series frame.  Non-     *)
+(*             series frames may stand anywhere in a stream.               *)
 (*  store      [frames, strips, batch, fail]: the label-sorted frame       *)
 (*             sequence it streams; strips = it honours                    *)
 (*             without_replica_labels itself (else the proxy must strip    *)
@@ -57,17 +60,35 @@ TimeLeq(c, d) == c.mint < d.mint \/ (c.mint = d.mint /\ c.maxt <= d.maxt)
 
 (* ======================= property level (C03) ======================= *)
 Without(w) == Rng(w.without)
-AllFrames(w) == UNION { Rng(w.stores[i].frames) : i \in DOMAIN w.stores }
-FramesOf(w, S) == UNION { Rng(w.stores[i].frames) : i \in S }
+IsSeries(fr) == "k" \notin DOMAIN fr \/ fr.k = "s"
+(* A store whose stream breaks (C06: fail.kind # "none"; a store record without the field does *)
+(* not fail) has returned the messages before the breaking point (k counts messages).          *)
+Fails(st) == "fail" \in DOMAIN st /\ st.fail.kind # "none"
+ReturnedOf(st) ==
+    IF Fails(st) /\ st.fail.kind \in {"after", "timeout"}
+      THEN SubSeq(st.frames, 1, IF st.fail.k < Len(st.frames) THEN st.fail.k ELSE Len(st.frames))
+    ELSE IF Fails(st) THEN <<>>
+    ELSE st.frames
+SeriesIn(frs) == { fr \in frs : IsSeries(fr) }
+AllFrames(w) == SeriesIn(UNION { Rng(w.stores[i].frames) : i \in DOMAIN w.stores })
+FramesOf(w, S) == SeriesIn(UNION { Rng(w.stores[i].frames) : i \in S })
+(* what must be in the response: everything the stores that did not fail streamed; what may be  *)
+(* in it: also what a failing store returned before it failed (weakest reading: the statement   *)
+(* is about stores that stream their series; a broken stream is C06's subject)                   *)
+RequiredFrames(w) == SeriesIn(UNION { Rng(w.stores[i].frames) : i \in { j \in DOMAIN w.stores : ~Fails(w.stores[j]) } })
+AllowedFrames(w) == SeriesIn(UNION { Rng(ReturnedOf(w.stores[i])) : i \in DOMAIN w.stores })
+NoStoreFails(w) == \A i \in DOMAIN w.stores : ~Fails(w.stores[i])
 
-(* label sets the response must list: those of every frame, as requested (stripped) *)
+(* label sets as requested (replica labels stripped) *)
 LsetsOfFrames(frs, without) == { Strip(fr.ls, without) : fr \in frs }
-ExpLsets(w) == LsetsOfFrames(AllFrames(w), Without(w))
+ExpLsets(w) == LsetsOfFrames(RequiredFrames(w), Without(w))
+MayLsets(w) == LsetsOfFrames(AllowedFrames(w), Without(w))
 
 (* the distinct chunks the stores returned for label set ls *)
 ChunksOfFrames(frs, without, ls) ==
     { Ident(c) : c \in UNION { Rng(fr.chunks) : fr \in { g \in frs : Strip(g.ls, without) = ls } } }
-ExpChunks(w, ls) == ChunksOfFrames(AllFrames(w), Without(w), ls)
+ExpChunks(w, ls) == ChunksOfFrames(RequiredFrames(w), Without(w), ls)
+MayChunks(w, ls) == ChunksOfFrames(AllowedFrames(w), Without(w), ls)
 
 OutLsets(o) == { o[i].ls : i \in DOMAIN o }
 OutChunks(o, ls) == UNION { Rng(o[i].chunks) : i \in { j \in DOMAIN o : o[j].ls = ls } }
@@ -86,13 +107,13 @@ C03Clauses(w, o) ==
     (* every series some store streamed is in the response, and nothing else *)
     (IF ExpLsets(w) \subseteq OutLsets(o) THEN {} ELSE {"no-series-lost"})
     \cup
-    (IF OutLsets(o) \subseteq ExpLsets(w) THEN {} ELSE {"no-series-invented"})
+    (IF OutLsets(o) \subseteq MayLsets(w) THEN {} ELSE {"no-series-invented"})
     \cup
     (* "carries exactly the distinct chunks that the stores returned for it" *)
     (IF \A ls \in OutLsets(o) \cap ExpLsets(w) : ExpChunks(w, ls) \subseteq OutChunks(o, ls)
        THEN {} ELSE {"no-chunk-lost"})
     \cup
-    (IF \A ls \in OutLsets(o) \cap ExpLsets(w) : OutChunks(o, ls) \subseteq ExpChunks(w, ls)
+    (IF \A ls \in OutLsets(o) \cap MayLsets(w) : OutChunks(o, ls) \subseteq MayChunks(w, ls)
        THEN {} ELSE {"no-chunk-invented"})
     \cup
     (IF \A i \in DOMAIN o : Cardinality(Rng(o[i].chunks)) = Len(o[i].chunks)
@@ -158,9 +179,17 @@ RECURSIVE SortFrames(_)
 SortFrames(s) == IF s = <<>> THEN <<>> ELSE InsertFrame(SortFrames(SubSeq(s, 1, Len(s) - 1)), s[Len(s)])
 
 (* eagerRespSet + sortWithoutLabels for a store that cannot strip; otherwise the stream as is *)
+StripFrame(fr, without) == IF IsSeries(fr) THEN [fr EXCEPT !.ls = Strip(fr.ls, without)] ELSE fr
+(* sortWithoutLabels: labels stripped, non-series frames moved to the front, series re-sorted *)
+Resorted(frs, without) ==
+    SelectSeq(frs, LAMBDA g : ~IsSeries(g))
+    \o SortFrames([i \in DOMAIN SelectSeq(frs, IsSeries) |-> StripFrame(SelectSeq(frs, IsSeries)[i], without)])
 StreamOf(st, without) ==
-    IF st.strips \/ without = {} THEN st.frames
-    ELSE SortFrames([i \in DOMAIN st.frames |-> [ls |-> Strip(st.frames[i].ls, without), chunks |-> st.frames[i].chunks]])
+    IF st.strips \/ without = {} THEN st.frames ELSE Resorted(st.frames, without)
+(* the eager respSet always runs sortWithoutLabels (with nothing to strip for a store that      *)
+(* strips itself): its non-series frames come first                                              *)
+EagerStreamOf(st, without) ==
+    IF st.strips \/ without = {} THEN Resorted(st.frames, {}) ELSE Resorted(st.frames, without)
 
 (* responseDeduplicator.chainSeriesAndRemIdenticalChunks: a chunk is identified by the hashes of *)
 (* all its sub-chunks together; the first of each identity is kept; the kept chunks are sorted   *)
@@ -188,13 +217,16 @@ RECURSIVE ConcatChunks(_)
 ConcatChunks(frs) == IF frs = <<>> THEN <<>> ELSE Head(frs).chunks \o ConcatChunks(Tail(frs))
 Chain(frs) == [ls |-> frs[1].ls, chunks |-> SortChunks(KeepFirst(ConcatChunks(frs), {}))]
 
-(* batchableServer: messages of at most b series; b <= 1 sends series one by one *)
-RECURSIVE Batches(_, _)
-Batches(o, b) ==
-    IF o = <<>> THEN <<>>
-    ELSE IF b <= 1 THEN <<<<Head(o)>>>> \o Batches(Tail(o), b)
-    ELSE IF Len(o) <= b THEN <<o>>
-    ELSE <<SubSeq(o, 1, b)>> \o Batches(SubSeq(o, b + 1, Len(o)), b)
+(* batchableServer: messages of at most b series, b <= 1 sends them one by one; a non-series  *)
+(* response first flushes the series collected so far and travels alone                          *)
+RECURSIVE BatchFold(_, _, _)
+BatchFold(o, b, pend) ==
+    IF o = <<>> THEN (IF pend = <<>> THEN <<>> ELSE <<pend>>)
+    ELSE IF ~IsSeries(Head(o)) THEN (IF pend = <<>> THEN <<>> ELSE <<pend>>) \o <<<<Head(o)>>>> \o BatchFold(Tail(o), b, <<>>)
+    ELSE IF b <= 1 THEN <<<<Head(o)>>>> \o BatchFold(Tail(o), b, <<>>)
+    ELSE IF Len(pend) + 1 >= b THEN <<Append(pend, Head(o))>> \o BatchFold(Tail(o), b, <<>>)
+    ELSE BatchFold(Tail(o), b, Append(pend, Head(o)))
+Batches(o, b) == BatchFold(o, b, <<>>)
 RECURSIVE FlattenMsgs(_)
 FlattenMsgs(ms) == IF ms = <<>> THEN <<>> ELSE Head(ms) \o FlattenMsgs(Tail(ms))
 
@@ -209,5 +241,10 @@ GroupChain(frs) ==
     ELSE LET same == SelectSeq(frs, LAMBDA g : g.ls = frs[1].ls)
              rest == SelectSeq(frs, LAMBDA g : g.ls # frs[1].ls)
          IN <<Chain(same)>> \o GroupChain(rest)
-AlgoOutput(w) == GroupChain(SortFrames(ConcatStreams(w, DOMAIN w.stores, 1)))
+SeriesOf(seq) == SelectSeq(seq, IsSeries)
+(* (a failing store contributes what it returned before it failed) *)
+RECURSIVE ConcatReturned(_, _)
+ConcatReturned(w, i) == IF i > Len(w.stores) THEN <<>>
+                        ELSE StreamOf([w.stores[i] EXCEPT !.frames = ReturnedOf(w.stores[i])], Without(w)) \o ConcatReturned(w, i + 1)
+AlgoOutput(w) == GroupChain(SortFrames(SeriesOf(ConcatReturned(w, 1))))
 =============================================================================
